@@ -87,10 +87,10 @@ func makeProgram(r *core.Rand, fam int, common bool, maxStmts int) progCase {
 
 func init() {
 	// the shared parse workload gets generated programs from here
-	extraProgram = func(r *core.Rand, fam int) []byte {
+	extraProgram = func(r *core.Rand, fam int, flexOK bool) []byte {
 		pc := makeProgram(r, fam, false, 6)
 		mode := []int{gen.LayCanon, gen.LayMinimal, gen.LayLF, gen.LayCRLF, gen.LayComments, gen.LayMixed, gen.LayMixed}[r.Intn(7)]
-		if pc.root.HasFlag(gen.FFlex73) {
+		if pc.root.HasFlag(gen.FFlex73) && !flexOK {
 			// keep it parseable for every 7.x version the caller may pick: regenerate without flexible heredocs
 			g := gen.NewG(r.Split("prog2"), gen.Opts{Fam: fam, MaxDepth: 3, MaxStmts: 6})
 			return gen.Render(g.Program().Tokens(), mode, r.Split("lay"), nil)
@@ -190,7 +190,7 @@ func init() {
 			"the generator's construct -> (kind, roles) mapping is the specification of the AST; operator grouping comes from php.net's precedence/associativity table for PHP 7.4 (5.6 for the 5.x family)",
 			"'valid' means derivable from PHP's grammar; semantic restrictions (abstract final, duplicate modifiers, mixing namespace forms) are out of scope",
 		},
-		Plan: func(p core.Params) int { return p.Pick(40000, 2000000) },
+		Plan: func(p core.Params) int { return p.Pick(150000, 2000000) },
 		Run:  func(c *core.Ctx, idx int) { c03Case(c, idx) },
 		RunWitness: func(c *core.Ctx, w core.Witness) {
 			pr := obs.Parse(w.Src, w.Ver, true)
